@@ -18,13 +18,19 @@ def make_partition_column(col, n, seed):
     card = col.get("card", 3)
     nulls = F.null_mask(col.get("nulls", "none"), n, rng)
     if k == "pint":
-        pool = np.array([0, 1, -3, 12, 2 ** 40, -1][:max(1, card)], dtype="int64")
+        src = [0, 1, -3, 12, 2 ** 40, -1, 2 ** 53 + 1, -(2 ** 53) - 1, 2 ** 63 - 1, -(2 ** 63), 1577836800000000001,
+               1577836800000000002, 2 ** 63 - 513, 10 ** 18 + 7, 255, 256]
+        off = col.get("off", 0)
+        pool = np.array([src[(off + i) % len(src)] for i in range(max(1, card))], dtype="int64")
         s = pd.Series(pool[rng.integers(0, len(pool), n)])
         if nulls.any():
             s = s.astype("float64")
             s[nulls] = np.nan
     elif k == "pfloat":
-        pool = np.array([0.5, 1.0, -2.25, 1000.0, 1e-3, 3.0][:max(1, card)])
+        src = [0.5, 1.0, -2.25, 1000.0, 1e-3, 3.0, 1e16, -0.0, 1e-7, 123456789.125, 2.5e20, 0.1]
+        off = col.get("off", 0)
+        pool = np.array([src[(off + i) % len(src)] for i in range(max(1, card))])
+        pool = np.unique(pool)
         s = pd.Series(pool[rng.integers(0, len(pool), n)])
         s[nulls] = np.nan
     elif k == "pbool":
